@@ -23,6 +23,12 @@ class ToolError(Exception):
     pass
 
 
+class CodeUnderTestDied(Exception):
+    """the harness process was killed by a signal or did not terminate while executing the code under test
+    (stack overflow from runaway recursion, abort, non-termination): reported as a violation, not as a tool error"""
+    pass
+
+
 def sh(cmd, env=None, timeout=None, cwd=None, check=False):
     e = dict(os.environ)
     if env:
@@ -101,7 +107,20 @@ class Ctx:
         return os.path.join(hdir, "target", "release" if release else "debug", "drv")
 
     def drv(self, binary, args, timeout=3600, env=None):
-        rc, out, dt = sh([binary] + args, timeout=timeout, env=env)
+        try:
+            rc, out, dt = sh([binary] + args, timeout=timeout, env=env)
+        except ToolError as ex:
+            if str(ex).startswith("timeout"):
+                self.violations.append({"key": "%s: harness did not terminate within %ds while executing the code under test" % (args[0], timeout),
+                                        "stage": args[1], "kind": "died", "component": args[0],
+                                        "detail": {"command": [binary] + args, "seed": self.seed, "tier": self.tier}})
+                raise CodeUnderTestDied(str(ex))
+            raise
+        if rc < 0 or rc in (134, 139, 137):
+            self.violations.append({"key": "%s: harness process died (rc=%d) while executing the code under test" % (args[0], rc),
+                                    "stage": args[1], "kind": "died", "component": args[0],
+                                    "detail": {"command": [binary] + args, "output_tail": out[-1500:], "seed": self.seed, "tier": self.tier}})
+            raise CodeUnderTestDied("rc=%d" % rc)
         if rc != 0:
             raise ToolError("harness run failed rc=%d: %s\n%s" % (rc, " ".join(args), out[-4000:]))
         info = {}
